@@ -183,7 +183,9 @@ func (f *Frame) step(b *ssa.BasicBlock, ins ssa.Instruction, st *State) bool {
 	case *ssa.MakeSlice:
 		ln := f.toIdx(f.val(x.Len), x.Len.Type())
 		cp := f.toIdx(f.val(x.Cap), x.Cap.Type())
-		f.safety("make", x, "makeslice: len/cap out of range", st, mkAnd(mk(SBool, "bvsle", bv64(0), ln), mk(SBool, "bvsle", ln, cp), mk(SBool, "bvsle", cp, bvConst(bigPow2(48), 64))))
+		f.safety("make", x, "makeslice: len/cap out of range", st, mkAnd(mk(SBool, "bvsle", bv64(0), ln), mk(SBool, "bvsle", ln, cp)))
+		// A-mem: an allocation of more than 2^48 elements does not return
+		u.assume(st.reach, mk(SBool, "bvsle", cp, bvConst(bigPow2(48), 64)))
 		elem := x.Type().Underlying().(*types.Slice).Elem()
 		ref := f.allocRef(st)
 		region, es := u.elemRegion(elem)
